@@ -117,7 +117,10 @@ def obligations(tier, seed):
                                   ('m / (s * K)', 'UnitQuotientT<Meters, UnitProductT<Seconds, Kelvins>>'), ('m^(1/2)', 'UnitPowerT<Meters, 1, 2>')],
               'scaled-common': [('EQUIV{[(1 / 5000) m], [(1 / 127) in]}', 'CommonUnitT<Inches, Meters>'), ('in', 'CommonUnitT<Feet, Inches>'),
                                 ('EQUIV{[(1 / 100) degC], [(1 / 100) K]}', 'CommonPointUnitT<Celsius, Kelvins>'), ('[(UNLABELED SCALE FACTOR) m]', 'decltype(Meters{} * mag<3>() * Magnitude<Pi>{})'),
-                                ('[(25 / 3) m]', 'decltype(Meters{} / mag<3>() * pow<2>(mag<5>()))'), ('[12 in]', 'decltype(Inches{} * mag<12>())'), ('ft', 'Feet')]}
+                                ('[(25 / 3) m]', 'decltype(Meters{} / mag<3>() * pow<2>(mag<5>()))'), ('[12 in]', 'decltype(Inches{} * mag<12>())'), ('ft', 'Feet'),
+                                ('[2 ft]', 'CommonPointUnitT<decltype(Feet{} * mag<6>()), decltype(Feet{} * mag<10>())>'), ('[2 ft]', 'CommonUnit<decltype(Feet{} * mag<2>())>'),
+                                ('[2 ft]', 'CommonUnitT<decltype(Feet{} * mag<6>()), decltype(Feet{} * mag<10>())>'), ('in', 'CommonUnitT<decltype(Feet{} * mag<2>()), decltype(Inches{} * mag<12>()), Inches, decltype(Feet{} / mag<3>())>'),
+                                ('EQUIV{in, [(1 / 12) ft]}', 'CommonUnitT<decltype(Feet{} / mag<3>()), decltype(Inches{} * mag<5>())>')]}
     for gname, items in groups.items():
         obs.append(Ob(id='C18.static.labels.%s' % gname, prop='C18', group='C18.static', prelude='', wrappers=[], inputs=[], kind='S',
                       body=GH + '\n'.join('VF_LABEL("%s", %s);' % (t, u) for t, u in items) + '\nint main() {}\n',
